@@ -28,9 +28,15 @@ func (f *Field[T]) reduce(a *Element[T], strict bool) *Element[T] {
 	//   - in strict case and element was not recently reduced (even if it has no overflow)
 	//   - in non-strict case and the element has overflow
 
-	// sanity check
-	if _, aConst := f.constantValue(a); aConst {
-		panic("trying to reduce a constant, which happen to have an overflow flag set")
+	// all the limbs are constants (a constant element which has not been marked
+	// as reduced, or variables which cancelled out, e.g. x - x): reduce at
+	// compile time.
+	if aVal, aConst := f.constantValue(a); aConst {
+		aVal.Mod(aVal, f.fParams.Modulus())
+		// on the full number of limbs, as a reduced variable element would be
+		ret := newConstElement[T](aVal, true)
+		ret.modReduced = true
+		return ret
 	}
 	// slow path - use hint to reduce value
 	return f.mulMod(a, f.One(), 0, nil)
